@@ -983,6 +983,10 @@ where
             let mut buf = PacketIdType::Buffer::default();
             buf.as_mut()
                 .copy_from_slice(&data_arc[cursor..cursor + buffer_size]);
+            // the packet identifier of a QoS 1/2 PUBLISH must be non-zero (same rule as the builder)
+            if buf.as_ref().iter().all(|&b| b == 0) {
+                return Err(MqttError::MalformedPacket);
+            }
             cursor += buffer_size;
             Some(buf)
         } else {
